@@ -145,8 +145,14 @@ def _run_cb(ctx, spec, rng):
 
     r = spec[1]
     d = 2 if r % 3 else 3
-    kind = ["channel", "cp", "hp-difference", "hp-general", "cp-replacement"][r % 5]
-    if kind == "channel":
+    kind = ["channel", "cp", "hp-difference", "hp-general", "cp-replacement", "hp-transpose", "hp-unital-affine"][r % 7]
+    if kind == "hp-transpose":  # X -> X^T: Hermiticity preserving, unital, trace preserving, not CP; every cb norm equals d
+        j = sum(np.kron(e_, e_.T) for e_ in (np.outer(np.eye(d)[a_], np.eye(d)[b_]) for a_ in range(d) for b_ in range(d)))
+    elif kind == "hp-unital-affine":  # (1 + t) id - t U . U^dagger: Hermiticity preserving, unital, trace preserving, not CP
+        t_ = float(rng.uniform(0.2, 1.5))
+        u_ = gen.haar(rng, d)
+        j = choi([np.sqrt(1 + t_) * np.eye(d), np.sqrt(t_) * u_], [np.sqrt(1 + t_) * np.eye(d), -np.sqrt(t_) * u_])
+    elif kind == "channel":
         j = choi(gen.stinespring_kraus(rng, d, d, int(rng.integers(1, 4))))
     elif kind == "cp":
         ks = [gen.rc(rng, d, d) for _ in range(int(rng.integers(1, 3)))]
@@ -165,6 +171,8 @@ def _run_cb(ctx, spec, rng):
     sig = (d, kind)
     det = {"d": d, "class": kind, "value": val, "return_site": site}
     ctx.sample("O2:cb-homogeneous", det)
+    if kind == "hp-transpose":
+        ctx.check("O2:cb-closed-form", None, dev=abs(val - d), tol=TOLA * (1 + d), sig=sig, nt=True, mech="cb_trace_norm:transpose-map!=d", detail=det)
     if kind == "channel":
         ctx.check("O2:cb-channel=1", abs(val - 1) <= TOLA, sig=sig, nt=True, mech="cb_trace_norm:channel!=1", detail=det)
     if kind in ("cp", "cp-replacement"):
@@ -188,6 +196,8 @@ def _run_cb(ctx, spec, rng):
     dual_j = ref.permute(j.conj(), [1, 0], [d, d], [d, d])
     sp = _solve(ctx, completely_bounded_spectral_norm, j.copy())
     tr_dual, site_d = _cb(ctx, dual_j)
+    if sp is not None and kind == "hp-transpose":
+        ctx.check("O2:cb-closed-form", None, dev=abs(sp - d), tol=TOLA * (1 + d), sig=sig + ("spectral",), nt=True, mech="cb_spectral_norm:transpose-map!=d", detail=dict(det, spectral=sp))
     if sp is not None and tr_dual is not None:
         ctx.check("O3:cb-spectral=cb-trace-of-dual", None, dev=abs(sp - tr_dual) / (1 + abs(tr_dual)), tol=TOLA * 2, sig=sig, nt=True, mech="cb_spectral_norm:differs-from-cb-trace-norm-of-dual",
                   detail=dict(det, spectral=sp, trace_of_dual=tr_dual))
